@@ -73,3 +73,13 @@ package manifest
 //@ requires p != nil && item != nil
 //@ ensures[wild] result == nil ==> (p.Methods.Value == nil) == is(stackitem.valueOf(item).([]stackitem.Item)[1], stackitem.Null)
 //@ loop 0 invariant p.Methods.Value != nil
+
+// (C16) the JSON form keeps wildcard and explicit lists apart, like the stack-item form: only the
+// string "*" is the wildcard; anything else that parses gives an explicit (possibly empty, never
+// nil) list - JSON null in particular is not a wildcard.
+//@ prop C16
+//@ func (*WildStrings).UnmarshalJSON
+//@ may-panic
+//@ opt frame off
+//@ requires c != nil
+//@ ensures[explicit] result == nil && ncalls(Unmarshal) == 1 ==> c.Value != nil
